@@ -101,4 +101,6 @@ pub enum DecodeError {
     TagError(#[from] TagError),
     #[error("ECH length mismatch. Expected {0} got {1}")]
     ECHLengthMismatch(usize, usize),
+    #[error("Class is not IN for SVCB or HTTPS record: {0}")]
+    SVCBClass(Class),
 }
